@@ -42,6 +42,7 @@ class FakeSocket:
         self.label = label
         self.peer: Optional[FakeSocket] = None
         self.rx = bytearray()
+        self.inflight = bytearray()  # sent by the peer, still on the way: arrives while a blocking read waits
         self.rx_fin = False  # peer sent FIN
         self.rx_rst = False  # peer sent RST
         self.closed = False
@@ -133,7 +134,10 @@ class FakeSocket:
             if mode == "reset":
                 raise ConnectionResetError(errno.ECONNRESET, "Connection reset by peer")
             raise BrokenPipeError(errno.EPIPE, "Broken pipe")
-        peer.rx += data
+        if peer.inflight:
+            peer.inflight += data  # keep the byte order behind data that is still on the way
+        else:
+            peer.rx += data
         self.sent_total += len(data)
         return None
 
@@ -141,12 +145,32 @@ class FakeSocket:
         self.sendall(data)
         return len(data)
 
+    def sendall_segmented(self, data, first: int):
+        """The first `first` bytes arrive at once, the rest is still on the way (it arrives while the
+        receiver blocks in a read, as the second TCP segment of a large or slowly written frame would)."""
+        peer = self.peer
+        data = bytes(data)
+        if self.closed or peer is None or peer.closed or peer.inflight:
+            return self.sendall(data)
+        first = max(1, min(first, len(data)))
+        if self.tx_log is not None:
+            self.tx_log += data
+        peer.rx += data[:first]
+        peer.inflight += data[first:]
+        self.sent_total += len(data)
+
     def _recv(self, n, flags):
         if self.closed:
             raise OSError(errno.EBADF, "Bad file descriptor")
         if n < 0:
             raise ValueError("negative buffersize in recv")
         waitall = bool(flags & _real_socket.MSG_WAITALL)
+        if self.inflight and (waitall or not self.rx) and len(self.rx) < n:
+            # a blocking read waits while the rest of the data arrives (MSG_WAITALL: until n bytes are
+            # there; otherwise until something is there)
+            k = (n - len(self.rx)) if waitall else len(self.inflight)
+            self.rx += self.inflight[:k]
+            del self.inflight[:k]
         if len(self.rx) >= n or (self.rx and not waitall):
             k = min(n, len(self.rx))
             out = bytes(self.rx[:k])
@@ -161,8 +185,11 @@ class FakeSocket:
                 return out
             raise ConnectionResetError(errno.ECONNRESET, "Connection reset by peer")
         if self.rx_fin:
-            out = bytes(self.rx)
-            del self.rx[:]
+            if self.inflight:
+                self.rx += self.inflight
+                del self.inflight[:]
+            out = bytes(self.rx[:n])
+            del self.rx[:n]
             return out
         if n == 0:
             return b""
@@ -191,11 +218,12 @@ class FakeSocket:
             return
         peer = self.peer
         if peer is not None and not peer.closed:
-            if self.rx:
+            if self.rx or self.inflight:
                 peer.rx_rst = True  # close with unread data -> RST
             else:
                 peer.rx_fin = True
         del self.rx[:]
+        del self.inflight[:]
 
     def abort(self):
         """Close with RST (SO_LINGER 0)."""
@@ -381,8 +409,11 @@ class Conn:
         kernel so that it is also known for clients that have already gone away)."""
         return self.m.closed
 
-    def send(self, data: bytes):
-        self.c.sendall(data)
+    def send(self, data: bytes, seg: int = 0):
+        if seg:
+            self.c.sendall_segmented(data, seg)
+        else:
+            self.c.sendall(data)
 
     def take(self) -> bytes:
         out = bytes(self.c.rx)
@@ -416,7 +447,6 @@ class Sim:
 
     def __init__(self, timecode=False, send_msg_timing=True, log_level=logging.ERROR):
         install()
-        pin_to_current_cpu()
         import pyrtma.manager as mm
 
         FakeSocket._ids = 0  # socket identities (and thereby set iteration orders) are a function of the history
@@ -497,12 +527,15 @@ class Sim:
             return False
         if m.rx_rst or m.rx_fin:
             return True
-        if len(m.rx) < self.hsize:
+        if not m.rx:
+            return False  # nothing has arrived yet: select would not report the socket
+        have = m.rx + m.inflight if m.inflight else m.rx
+        if len(have) < self.hsize:
             return False
-        (n,) = struct.unpack_from("<i", m.rx, OFF_NBYTES)
+        (n,) = struct.unpack_from("<i", have, OFF_NBYTES)
         if n < 0 or n > 1024 ** 2:
             return True  # the manager decides from the header alone
-        return len(m.rx) >= self.hsize + n
+        return len(have) >= self.hsize + n
 
     def step(self, ready, writable, dt=0.0):
         """Release one loop iteration.  ready: ordered list of Conn / LISTENER; writable: iterable of Conn."""
